@@ -27,9 +27,11 @@ theorem errexit_iff (s : St) :
     split at h
     · rename_i hh; simpa using hh
     · cases h
-  · intro h
-    have : s.status ≠ 0 ∧ (s.errexit && !s.stack.contains .condition) = true := by simpa using h
-    simp [this]
+  · rintro ⟨h1, h2, h3⟩
+    rw [if_pos]
+    refine ⟨h1, ?_⟩
+    have : ¬ Frame.condition ∈ s.stack := by simpa using h3
+    simp [h2, this]
 
 theorem errexit_otherwise_continues (s : St) :
     s.applyErrexit = .break_ (.exit none) ∨ s.applyErrexit = .continue_ := by
@@ -77,13 +79,13 @@ theorem errexit_irrelevant_in_condition (fuel : Nat) (s : St) (c : Cmd) (b : Boo
     (hc : s.stack.contains .condition = true) :
     SameButErrexit (execCmd fuel s c).1 (execCmd fuel { s with errexit := b } c).1 ∧
     (execCmd fuel s c).2 = (execCmd fuel { s with errexit := b } c).2 :=
-  (irr fuel).cmd s { s with errexit := b } c ⟨rfl, rfl, rfl, rfl, rfl, rfl, rfl⟩ hc
+  (irr fuel).cmd s { s with errexit := b } c ⟨b, rfl⟩ hc
 
 theorem errexit_irrelevant_in_condition_list (fuel : Nat) (s : St) (l : List Item) (b : Bool)
     (hc : s.stack.contains .condition = true) :
     SameButErrexit (execList fuel s l).1 (execList fuel { s with errexit := b } l).1 ∧
     (execList fuel s l).2 = (execList fuel { s with errexit := b } l).2 :=
-  (irr fuel).list s { s with errexit := b } l ⟨rfl, rfl, rfl, rfl, rfl, rfl, rfl⟩ hc
+  (irr fuel).list s { s with errexit := b } l ⟨b, rfl⟩ hc
 
 /-! ### ★ abort_stops: nothing runs after the abort point -/
 
@@ -131,8 +133,7 @@ theorem error_status_table (fuel : Nat) (s : St) :
 /-- the status the shell exits with after an abort is the one carried by the divert, else `$?` -/
 theorem abort_status (s : St) (d : Divert) :
     (s.applyResult (.break_ d)).status = (match d.exitStatus with | some e => e | none => s.status) := by
-  unfold St.applyResult
-  cases d.exitStatus <;> rfl
+  cases h : d.exitStatus <;> simp [St.applyResult, h]
 
 /-! ### ★ no_errexit_continues -/
 
@@ -151,38 +152,63 @@ theorem no_errexit_continues (fuel : Nat) (s : St) (he : s.errexit = false) :
 
 /-! ### ★ exit_trap_once -/
 
+/-- the EXIT action `probe m` run by `run_exit_trap`: one probe, `$?` restored -/
+theorem runExitTrap_probe (fuel : Nat) (s1 : St) (m : Nat)
+    (ht : s1.exitTrap = some [.mk (.mk false [.probe m]) []]) :
+    (runExitTrap (fuel+5) s1).1.trace = (m, s1.status) :: s1.trace ∧
+    (runExitTrap (fuel+5) s1).1.status = s1.status ∧
+    (runExitTrap (fuel+5) s1).2 ≠ .outOfFuel := by
+  have key : execList (fuel+5) (s1.push .trap) [.mk (.mk false [.probe m]) []] =
+      ({ s1.push .trap with trace := (m, s1.status) :: s1.trace },
+       ({ s1.push .trap with trace := (m, s1.status) :: s1.trace } : St).applyErrexit) := by
+    simp only [execList, execItem, execPipeline, execCommands, execCmd, finishSimple, Bool.not_false, if_true]
+    rcases errexit_otherwise_continues ({ s1.push .trap with trace := (m, s1.status) :: s1.trace }) with h | h
+    · simp only [St.push] at h ⊢; rw [h]
+    · simp only [St.push] at h ⊢; rw [h]
+  unfold runExitTrap
+  rw [ht]
+  simp only [key]
+  rcases errexit_otherwise_continues ({ s1.push .trap with trace := (m, s1.status) :: s1.trace }) with h | h
+  · rw [h]; simp [St.applyResult, Divert.exitStatus, St.pop, St.push]
+  · rw [h]; simp [St.applyResult, St.pop, St.push]
+
 /-- On every terminating path of the shell other than `Abort`, the EXIT action runs exactly once,
     after the script: for an action `probe m` the trace grows by exactly that one probe, `$?` is what
     the script left, and with no trap set nothing is added. -/
 theorem exit_trap_once (fuel : Nat) (s : St) (script : List Line) (m : Nat)
-    (hr : (runScript (fuel+3) s script).2 ≠ .outOfFuel)
-    (ha : ∀ e, (runScript (fuel+3) s script).2 ≠ .break_ (.abort e)) :
-    ((runScript (fuel+3) s script).1.exitTrap = some [.mk (.mk false [.probe m]) []] →
-      (runShell (fuel+3) s script).1.trace =
-        (m, (runScript (fuel+3) s script).1.status) :: (runScript (fuel+3) s script).1.trace ∧
-      (runShell (fuel+3) s script).1.status = (runScript (fuel+3) s script).1.status) ∧
-    ((runScript (fuel+3) s script).1.exitTrap = none →
-      (runShell (fuel+3) s script).1 = (runScript (fuel+3) s script).1) := by
+    (hr : (runScript (fuel+5) s script).2 ≠ .outOfFuel)
+    (ha : ∀ e, (runScript (fuel+5) s script).2 ≠ .break_ (.abort e)) :
+    ((runScript (fuel+5) s script).1.exitTrap = some [.mk (.mk false [.probe m]) []] →
+      (runShell (fuel+5) s script).1.trace =
+        (m, (runScript (fuel+5) s script).1.status) :: (runScript (fuel+5) s script).1.trace ∧
+      (runShell (fuel+5) s script).1.status = (runScript (fuel+5) s script).1.status) ∧
+    ((runScript (fuel+5) s script).1.exitTrap = none →
+      (runShell (fuel+5) s script).1 = (runScript (fuel+5) s script).1) := by
   unfold runShell
-  generalize runScript (fuel+3) s script = x at *
+  generalize runScript (fuel+5) s script = x at *
   obtain ⟨s1, r⟩ := x
   simp only at hr ha
   constructor
   · intro ht
     simp only at ht
+    obtain ⟨t1, t2, t3⟩ := runExitTrap_probe fuel s1 m ht
     cases r with
     | outOfFuel => exact absurd rfl hr
     | continue_ =>
-      simp [runExitTrap, ht, execList, execItem, execPipeline, execCommands, execCmd, finishSimple,
-        St.applyErrexit, St.errexitApplicable, St.push, St.pop, St.applyResult]
-      split <;> simp [St.applyResult, Divert.exitStatus]
+      simp only
+      cases hr2 : (runExitTrap (fuel+5) s1).2 with
+      | outOfFuel => exact absurd hr2 t3
+      | continue_ => exact ⟨t1, t2⟩
+      | break_ d => exact ⟨t1, t2⟩
     | break_ d =>
       cases d with
       | abort e => exact absurd rfl (ha e)
       | _ =>
-        simp [runExitTrap, ht, execList, execItem, execPipeline, execCommands, execCmd, finishSimple,
-          St.applyErrexit, St.errexitApplicable, St.push, St.pop, St.applyResult]
-        split <;> simp [St.applyResult, Divert.exitStatus]
+        simp only
+        cases hr2 : (runExitTrap (fuel+5) s1).2 with
+        | outOfFuel => exact absurd hr2 t3
+        | continue_ => exact ⟨t1, t2⟩
+        | break_ d => exact ⟨t1, t2⟩
   · intro ht
     simp only at ht
     cases r with
